@@ -2,8 +2,7 @@ use crate::{not_whitespace, slash_num};
 use bytes::Bytes;
 use bytesstr::BytesStr;
 use internal::{ws, IResult};
-use nom::branch::alt;
-use nom::bytes::complete::{tag, take_while1};
+use nom::bytes::complete::take_while1;
 use nom::character::complete::digit1;
 use nom::combinator::{map, map_res, opt};
 use nom::error::context;
@@ -23,12 +22,15 @@ impl MediaType {
     pub fn parse(i: &str) -> IResult<&str, Self> {
         context(
             "parsing media type",
-            alt((
-                map(tag("audio"), |_| MediaType::Audio),
-                map(tag("video"), |_| MediaType::Video),
-                map(tag("text"), |_| MediaType::Text),
-                map(tag("application"), |_| MediaType::App),
-            )),
+            // take the whole token first, a known media type must not match as a prefix
+            // of a longer token (e.g. `audio1 9 RTP/AVP 0`)
+            map_res(take_while1(not_whitespace), |media_type| match media_type {
+                "audio" => Ok(MediaType::Audio),
+                "video" => Ok(MediaType::Video),
+                "text" => Ok(MediaType::Text),
+                "application" => Ok(MediaType::App),
+                _ => Err(()),
+            }),
         )(i)
     }
 }
